@@ -599,7 +599,9 @@ def oracle_c15(rec, driver=None):
             init_inside = w0 is not None and hp['w_min'] <= w0 <= hp['w_max']
             adapted = adapted_w or (w0 is not None and hp['w'] != w0)
             adapted_w = adapted
-            if init_inside or adapted:
+            # (the first adaptation step runs at the end of iteration 0: from the third hook on w is an adapted value,
+            #  whether or not any particle succeeded)
+            if init_inside or adapted or t >= 2:
                 rng_ok('w', hp['w_min'], hp['w_max'], hp['w'])
         if kind == 'IHS' and t >= 1:
             stats['adaptive_values'] += 2
